@@ -12,6 +12,7 @@ import StathamModel.SerJson
 import StathamModel.ToSchema
 import StathamModel.Lemmas.ParseNF
 import StathamModel.Lemmas.SerSem
+import StathamModel.Lemmas.AccNames
 import StathamModel.Orderer
 import StathamModel.Py.Repr
 import StathamModel.Py.EvalTree
@@ -358,7 +359,7 @@ def handle (req : Json) : R Json := do
   | "elem_eq" => do
     let a ← decElem (← req.getObjVal? "a")
     let b ← decElem (← req.getObjVal? "b")
-    pure (Json.mkObj [("eq", elemEq a b), ("eq_rev", elemEq b a)])
+    pure (Json.mkObj [("eq", elemEq a b), ("eq_rev", elemEq b a), ("anon_same", sameRepr (anonymize a) (anonymize b))])
   | "elem_call" => do
     let tables ← getTables req
     let el ← decElem (← req.getObjVal? "elem")
